@@ -1177,3 +1177,326 @@ Proof.
     split. { now apply (is_cycle_rcycle _ _ c H). }
     split; auto. intros m Hm. now apply (cycle_members_live gs c m I C Hm).
 Qed.
+
+(* ================================================================== *)
+(* Part 5: priorities that change during the history                    *)
+(* (priority inheritance, plain assignments, allow_preemption toggled)  *)
+
+(* -- get_blocking_chain terminates within its fuel ------------------- *)
+Lemma chain_walk_fuel g : forall fuel cur rest,
+  NoDup (cur :: rest) -> incl rest (map fst g) -> (length g < fuel + length rest)%nat ->
+  chain_walk fuel g cur (cur :: rest) <> None.
+Proof.
+  induction fuel as [|f IH]; intros cur rest ND I L.
+  - exfalso. inversion ND; subst. pose proof (NoDup_incl_length H2 I) as X.
+    rewrite map_length in X. simpl in L. lia.
+  - cbn [chain_walk]. destruct (succs g cur) as [|[b r0] t] eqn:S; [discriminate|].
+    destruct (memz b (cur :: rest)) eqn:M; [discriminate|].
+    apply memz_false in M.
+    assert (K : In cur (map fst g)).
+    { unfold succs in S. destruct (aget g cur) eqn:A; [|discriminate]. eapply aget_Some_in; eauto. }
+    assert (X : chain_walk f g b (b :: cur :: rest) <> None).
+    { apply IH.
+      - constructor; auto.
+      - intros x [<-|Hx]; auto.
+      - simpl. lia. }
+    destruct (chain_walk f g b (b :: cur :: rest)); [discriminate | congruence].
+Qed.
+
+Lemma blocking_tail_fuel g a : blocking_tail g a <> None.
+Proof.
+  unfold blocking_tail. apply chain_walk_fuel.
+  - constructor; [intros [] | constructor].
+  - intros x [].
+  - simpl. lia.
+Qed.
+
+Lemma boost_waiters_fuel g : forall keys s bs, boost_waiters g keys s bs <> None.
+Proof.
+  induction keys as [|k keys IH]; intros s bs; cbn [boost_waiters]; [discriminate|].
+  destruct (active_ctx s k) as [c|]; auto.
+  destruct (blocking_tail g k) as [ch|] eqn:B; [|now apply blocking_tail_fuel in B].
+  destruct (boost_chain s bs (c_prio c) ch) as [[s1 bs1] nb1].
+  specialize (IH s1 bs1). destruct (boost_waiters g keys s1 bs1) as [[[s2 bs2] nb2]|]; [discriminate | congruence].
+Qed.
+
+Lemma boost_fuel_proof s bs : check_and_boost s bs <> None.
+Proof. apply boost_waiters_fuel. Qed.
+
+(* -- calls that leave locks' owners, the active set and the graph alone -- *)
+Record same_rel (s s' : st) : Prop := mkSame {
+  sr_wf : WF s -> WF s';
+  sr_active : active s' = active s;
+  sr_edges : edges s' = edges s;
+  sr_owner : forall r, owner s' r = owner s r }.
+
+Lemma same_rel_refl s : same_rel s s.
+Proof. constructor; auto. Qed.
+
+Lemma same_rel_trans s1 s2 s3 : same_rel s1 s2 -> same_rel s2 s3 -> same_rel s1 s3.
+Proof.
+  intros [A1 B1 C1 D1] [A2 B2 C2 D2]. constructor; auto; try congruence.
+Qed.
+
+Lemma put_prio_same s o c p : get_ctx s o = Some c -> same_rel s (put_ctx s o (c_set_prio c p)).
+Proof.
+  intros Hc. constructor; auto.
+  intros W. apply (wf_put_ctx s o c _ W Hc). apply incl_refl.
+Qed.
+
+Lemma set_prio_same s o p : same_rel s (set_prio s o p).
+Proof.
+  unfold set_prio. destruct (get_ctx s o) as [c|] eqn:Hc; [now apply put_prio_same | apply same_rel_refl].
+Qed.
+
+Lemma set_preempt_same s r l b : get_lock s r = Some l -> same_rel s (put_lock s r (l_set_preempt l b)).
+Proof.
+  intros Hl. constructor; auto.
+  - intros W. constructor.
+    + intros r' l'. rewrite get_lock_put_lock. destruct (Z.eqb r r') eqn:E.
+      * intros X. inversion X; subst. assert (r = r') by lia. subst.
+        exact (wf_lock s W r' l Hl).
+      * apply (wf_lock s W).
+    + intros r' l' o'. rewrite get_lock_put_lock, get_ctx_put_lock, active_put_lock.
+      destruct (Z.eqb r r') eqn:E.
+      * intros X Ho. inversion X; subst. assert (r = r') by lia. subst.
+        exact (wf_own s W r' l o' Hl Ho).
+      * apply (wf_own s W).
+    + intros o'. rewrite active_put_lock, get_ctx_put_lock. apply (wf_act s W).
+  - intros r'. rewrite !owner_def, get_lock_put_lock. destruct (Z.eqb r r') eqn:E; auto.
+    assert (r = r') by lia. subst. now rewrite Hl.
+Qed.
+
+Lemma boost_chain_same : forall ch s bs maxp, same_rel s (fst (fst (boost_chain s bs maxp ch))).
+Proof.
+  induction ch as [|o ch IH]; intros s bs maxp; cbn [boost_chain]; [apply same_rel_refl|].
+  unfold active_ctx. destruct (is_active s o); [|apply IH].
+  destruct (get_ctx s o) as [c|] eqn:Hc; [|apply IH].
+  destruct (Z.ltb (c_prio c) maxp); [|apply IH].
+  set (orig := match aget bs o with Some ob => fst ob | None => c_prio c end).
+  pose proof (IH (put_ctx s o (c_set_prio c maxp)) (aset bs o (orig, maxp)) maxp) as X.
+  destruct (boost_chain (put_ctx s o (c_set_prio c maxp)) (aset bs o (orig, maxp)) maxp ch) as [[s2 bs2] nb].
+  simpl in *. eapply same_rel_trans; [|exact X]. now apply put_prio_same.
+Qed.
+
+Lemma boost_waiters_same g : forall keys s bs out,
+  boost_waiters g keys s bs = Some out -> same_rel s (fst (fst out)).
+Proof.
+  induction keys as [|k keys IH]; intros s bs out; cbn [boost_waiters].
+  - intros H. inversion H. apply same_rel_refl.
+  - destruct (active_ctx s k) as [c|]; [|apply IH].
+    destruct (blocking_tail g k) as [ch|]; [|discriminate].
+    pose proof (boost_chain_same ch s bs (c_prio c)) as X.
+    destruct (boost_chain s bs (c_prio c) ch) as [[s1 bs1] nb1]. simpl in X.
+    pose proof (IH s1 bs1) as Y.
+    destruct (boost_waiters g keys s1 bs1) as [[[s2 bs2] nb2]|]; [|discriminate].
+    intros H. inversion H. simpl. eapply same_rel_trans; [exact X|]. exact (Y _ eq_refl).
+Qed.
+
+Lemma clear_boosts_same bs : forall s, same_rel s (clear_boosts s bs).
+Proof.
+  unfold clear_boosts. induction bs as [|kv bs IH]; intros s; simpl; [apply same_rel_refl|].
+  eapply same_rel_trans; [|apply IH].
+  destruct (is_active s (fst kv)); [apply set_prio_same | apply same_rel_refl].
+Qed.
+
+Lemma inv_same_rel gs gs' : Inv gs -> same_rel (fst gs) (fst gs') -> snd gs' = snd gs -> Inv gs'.
+Proof.
+  intros [W K He Hn Hl] [A B C D] Hw. constructor.
+  - auto.
+  - now rewrite C.
+  - intros w b r. rewrite C, B, D, Hw. apply He.
+  - intros w r X. rewrite D. rewrite Hw in X. auto.
+  - intros w r X. rewrite B, D. rewrite Hw in X. auto.
+Qed.
+
+(* what a priority call does to the state *)
+Definition prio_call (a : xop) : Prop := match a with XHop _ => False | _ => True end.
+
+Lemma prio_call_same fl w xs a :
+  prio_call a ->
+  let xs' := fst (xstep fl w xs a) in
+  same_rel (fst (fst xs)) (fst (fst xs')) /\ snd (fst xs') = snd (fst xs).
+Proof.
+  intros P. destruct xs as [[s ws] bs].
+  destruct a as [h|  |o|  |o p|r b]; [destruct P| | | | |]; cbn [xstep].
+  - pose proof (boost_waiters_same (edges s) (map fst (edges s)) s bs) as X.
+    unfold check_and_boost. destruct (boost_waiters (edges s) (map fst (edges s)) s bs) as [[[s' bs'] nb]|].
+    + simpl. split; auto. exact (X _ eq_refl).
+    + simpl. split; auto. apply same_rel_refl.
+  - destruct (is_active s o); [|simpl; split; auto; apply same_rel_refl].
+    destruct (aget bs o) as [ob|]; simpl; split; auto; [apply set_prio_same | apply same_rel_refl].
+  - simpl. split; auto. apply clear_boosts_same.
+  - destruct (is_active s o); simpl; split; auto; [apply set_prio_same | apply same_rel_refl].
+  - destruct (get_lock s r) as [l|] eqn:Hl; simpl; split; auto; [now apply set_preempt_same | apply same_rel_refl].
+Qed.
+
+Lemma rec_edges_same s s' : edges s' = edges s -> rec_edges s' = rec_edges s.
+Proof. unfold rec_edges. now intros ->. Qed.
+
+Lemma ref_edges_same gs gs' :
+  snd gs' = snd gs -> (forall r, owner (fst gs') r = owner (fst gs) r) -> ref_edges gs' = ref_edges gs.
+Proof.
+  intros Hw O. unfold ref_edges. rewrite Hw. generalize (snd gs). intros l.
+  induction l as [|x l IH]; simpl; auto. now rewrite O, IH.
+Qed.
+
+(* a call that is not an acquisition / release / completion / abort / watchdog run
+   changes neither relation nor the verdict of check_deadlock — for ANY state *)
+Lemma prio_call_keeps_relation_proof fl w xs a :
+  prio_call a ->
+  let xs' := fst (xstep fl w xs a) in
+  rec_edges (fst (fst xs')) = rec_edges (fst (fst xs)) /\
+  ref_edges (fst xs') = ref_edges (fst xs) /\
+  detect_cycle (edges (fst (fst xs'))) = detect_cycle (edges (fst (fst xs))) /\
+  active (fst (fst xs')) = active (fst (fst xs)) /\
+  (forall r, owner (fst (fst xs')) r = owner (fst (fst xs)) r).
+Proof.
+  intros P. destruct (prio_call_same fl w xs a P) as ([_ A Ed O] & Hw). cbv zeta in *.
+  split. { now apply rec_edges_same. }
+  split. { now apply ref_edges_same. }
+  split. { now rewrite Ed. }
+  split; auto.
+Qed.
+
+(* -- all histories over the extended alphabet -------------------------- *)
+Lemma xstep_inv w xs a : Inv (fst xs) -> Inv (fst (fst (xstep current w xs a))).
+Proof.
+  intros Hi. destruct a as [h|  |o|  |o p|r b].
+  1:{ destruct xs as [[s ws] bs]. cbn [xstep]. pose proof (gstep_inv w (s, ws) h Hi) as X.
+      destruct (gstep current w (s, ws) h) as [gs' ret]. exact X. }
+  all: match goal with |- Inv (fst (fst (xstep _ _ _ ?a))) =>
+         destruct (prio_call_same current w xs a I) as (S & Hw) end;
+       eapply inv_same_rel; eauto.
+Qed.
+
+Lemma xinit_inv res : Inv (fst (xinit res)).
+Proof. apply ginit_inv. Qed.
+
+Lemma xrun_inv w hs : forall xs, Inv (fst xs) -> Inv (fst (xrun current w xs hs)).
+Proof. induction hs as [|a hs IH]; intros xs Hi; simpl; auto. apply IH, xstep_inv, Hi. Qed.
+
+Lemma xreachable_inv res w hs : Inv (fst (xrun current w (xinit res) hs)).
+Proof. apply xrun_inv, xinit_inv. Qed.
+
+(* histories over the basic alphabet are the histories without priority calls *)
+Lemma xrun_hops_proof fl w hs : forall gs bs,
+  xrun fl w (gs, bs) (map XHop hs) = (grun fl w gs hs, bs).
+Proof.
+  induction hs as [|h hs IH]; intros gs bs; simpl; auto.
+  destruct gs as [s ws]. cbn [xstep].
+  destruct (gstep fl w (s, ws) h) as [gs' ret] eqn:G. simpl. rewrite IH. reflexivity.
+Qed.
+
+Lemma x_edges_exact_proof res w hs :
+  let gs := fst (xrun current w (xinit res) hs) in
+  forall wt b r, In (wt, b, r) (rec_edges (fst gs)) <-> In (wt, b, r) (ref_edges gs).
+Proof. intros gs wt b r. apply edges_exact_inv, xreachable_inv. Qed.
+
+Lemma blocked_live_inv gs :
+  Inv gs -> forall wt r, In (wt, r) (snd gs) ->
+    In wt (active (fst gs)) /\ exists b, owner (fst gs) r = Some b /\ b <> wt /\ In b (active (fst gs)).
+Proof.
+  intros Hi wt r X. destruct (inv_live _ Hi wt r X) as (A & O). split; auto.
+  destruct (owner (fst gs) r) as [b|] eqn:Ob; [|congruence].
+  exists b. split; auto. split.
+  - intros ->. now apply (inv_ns _ Hi wt r X).
+  - eapply wf_owner_active; eauto. apply Hi.
+Qed.
+
+Lemma x_blocked_live_proof res w hs :
+  let gs := fst (xrun current w (xinit res) hs) in
+  forall wt r, In (wt, r) (snd gs) ->
+    In wt (active (fst gs)) /\ exists b, owner (fst gs) r = Some b /\ b <> wt /\ In b (active (fst gs)).
+Proof. intros gs. apply blocked_live_inv, xreachable_inv. Qed.
+
+(* nobody is recorded as waiting for itself *)
+Lemma no_self_wait_inv gs : Inv gs -> forall wt r, ~ In (wt, wt, r) (rec_edges (fst gs)).
+Proof.
+  intros Hi wt r X. apply (edges_exact_inv gs wt wt r Hi) in X. apply ref_edges_In in X as (X & O).
+  exact (inv_ns _ Hi wt r X O).
+Qed.
+
+Lemma x_no_self_wait_proof res w hs :
+  let gs := fst (xrun current w (xinit res) hs) in
+  forall wt r, ~ In (wt, wt, r) (rec_edges (fst gs)).
+Proof. intros gs. apply no_self_wait_inv, xreachable_inv. Qed.
+
+(* an acquisition that returns ACQUIRED, REENTRANT or PREEMPTED leaves no recorded
+   wait of that operation for that resource - whatever was recorded before *)
+Lemma obtained_not_waiting_inv w xs o r :
+  Inv (fst xs) ->
+  let xs' := fst (xstep current w xs (XHop (HAcquire o r))) in
+  let ret := snd (xstep current w xs (XHop (HAcquire o r))) in
+  (ret = [0] \/ ret = [2] \/ ret = [3]) ->
+  ~ In (o, r) (snd (fst xs')) /\ forall b, ~ In (o, b, r) (rec_edges (fst (fst xs'))).
+Proof.
+  intros Hi. pose proof (xstep_inv w xs (XHop (HAcquire o r)) Hi) as Hi'.
+  destruct xs as [[s ws] bs]. cbv zeta. intros Hret.
+  assert (N : ~ In (o, r) (snd (fst (fst (xstep current w (s, ws, bs) (XHop (HAcquire o r))))))).
+  { revert Hret. cbn [xstep gstep to_fop fstep note_attempt].
+    destruct (is_active s o) eqn:Ea.
+    2:{ simpl. intros [X|[X|X]]; discriminate. }
+    destruct (acquire current s o r) as [s' res] eqn:Ha.
+    destruct res as [lr| |]; simpl; try (intros [X|[X|X]]; discriminate).
+    destruct lr; simpl; try (intros [X|[X|X]]; discriminate); intros _ X;
+      apply still_blocked_In in X as (X & _); apply rm_wait_In in X as (_ & X); apply X; auto. }
+  split; auto. intros b X.
+  set (gs' := fst (fst (xstep current w (s, ws, bs) (XHop (HAcquire o r))))) in *.
+  apply (edges_exact_inv gs' o b r Hi') in X. apply ref_edges_In in X as (X & _). auto.
+Qed.
+
+Lemma x_obtained_not_waiting_proof res w hs o r :
+  let xs := xrun current w (xinit res) hs in
+  let xs' := fst (xstep current w xs (XHop (HAcquire o r))) in
+  let ret := snd (xstep current w xs (XHop (HAcquire o r))) in
+  (ret = [0] \/ ret = [2] \/ ret = [3]) ->
+  ~ In (o, r) (snd (fst xs')) /\ forall b, ~ In (o, b, r) (rec_edges (fst (fst xs'))).
+Proof. intros xs. apply obtained_not_waiting_inv, xreachable_inv. Qed.
+
+Lemma x_victim_reachable_proof res w hs c :
+  let gs := fst (xrun current w (xinit res) hs) in
+  detect_cycle (edges (fst gs)) = Some c ->
+  let s := fst gs in
+  let gs' := fst (gstep current w gs HWatchdog) in
+  exists v l1 l2,
+    select_victim w s c = Some v /\ c = l1 ++ v :: l2 /\ In v (active s) /\
+    match victim_key w s with
+    | Some key => (forall m, In m l1 -> key v < key m) /\ (forall m, In m l2 -> key v <= key m)
+    | None => l1 = []
+    end /\
+    In v (map fst (snd (wd_execute current w s))) /\
+    ~ In v (active (fst gs')) /\ (forall r, owner (fst gs') r <> Some v) /\
+    ~ is_cycle (edges (fst gs')) c /\ Inv gs'.
+Proof. intros gs D. apply victim_proof; auto. apply xreachable_inv. Qed.
+
+Lemma deadlock_iff_reference_inv gs :
+  Inv gs ->
+  (detect_cycle (edges (fst gs)) <> None <-> exists c, is_rcycle (ref_graph_edge gs) c) /\
+  (forall c, detect_cycle (edges (fst gs)) = Some c ->
+     is_rcycle (ref_graph_edge gs) c /\ NoDup c /\
+     forall m, In m c ->
+       In m (active (fst gs)) /\
+       exists r b, In (m, r) (snd gs) /\ owner (fst gs) r = Some b /\ b <> m /\ In b (active (fst gs))).
+Proof.
+  intros Hi.
+  assert (H : forall x y, gedge (edges (fst gs)) x y <-> ref_graph_edge gs x y)
+    by (intros; now apply gedge_ref).
+  split; [split|].
+  - intros N. destruct (detect_cycle (edges (fst gs))) as [c|] eqn:D; [|congruence].
+    exists c. apply (is_cycle_rcycle _ _ c H). now apply cycle_sound_proof.
+  - intros (c & C). apply cycle_complete_proof. exists c. now apply (is_cycle_rcycle _ _ c H).
+  - intros c D. destruct (cycle_sound_proof _ _ D) as (C & ND).
+    split. { now apply (is_cycle_rcycle _ _ c H). }
+    split; auto. intros m Hm. now apply (cycle_members_live gs c m Hi C Hm).
+Qed.
+
+Lemma x_deadlock_iff_reference_proof res w hs :
+  let gs := fst (xrun current w (xinit res) hs) in
+  (detect_cycle (edges (fst gs)) <> None <-> exists c, is_rcycle (ref_graph_edge gs) c) /\
+  (forall c, detect_cycle (edges (fst gs)) = Some c ->
+     is_rcycle (ref_graph_edge gs) c /\ NoDup c /\
+     forall m, In m c ->
+       In m (active (fst gs)) /\
+       exists r b, In (m, r) (snd gs) /\ owner (fst gs) r = Some b /\ b <> m /\ In b (active (fst gs))).
+Proof. intros gs. apply deadlock_iff_reference_inv, xreachable_inv. Qed.
